@@ -329,6 +329,8 @@ pub struct Outcome {
     pub line: Line,
     pub ret: Ret,
     pub panicked: bool,
+    /// the crate's own code panicked (not user code, not the allocator)
+    pub internal: bool,
     pub injected: Option<(Kind, u64)>,
     pub log: OpLog,
     /// cache the observation is about (None: the op consumed or dropped it)
@@ -470,6 +472,7 @@ impl World {
             line: line.clone(),
             ret,
             panicked,
+            internal: false,
             injected: log.panicked,
             ops_text: format!("{}{}", line.text(), hints),
             obs_text: obs,
@@ -584,7 +587,24 @@ impl World {
                     Err(_) => (Ret::Panicked, true),
                 };
                 let sorted = matches!(op, OpKind::Clear);
-                Some(self.finish(line, ret, panicked, log, Some(*c), pre, refused, sorted))
+                // The crate's own code panicked — no user callback did, the allocator did not refuse, and the
+                // operation is not one that panics by contract: an arithmetic overflow / underflow (the
+                // harness is built with overflow checks on), an `unwrap`, an assertion. The state the cache
+                // is left in is unspecified; it is emptied (quietly) so that the sequence can go on, and
+                // the observation of this line is just the fact (`ar=ovf`), which the model must predict
+                // from its list of arithmetic steps (`arithOf`, Proofs/Arith.lean).
+                let internal = panicked && log.panicked.is_none() && line.panic_at.is_none() && !line.fail_alloc
+                    && !matches!(op, OpKind::Reserve(_) | OpKind::Shrink(_) | OpKind::ShrinkFit);
+                if internal {
+                    let cache = self.caches[*c].as_mut().unwrap();
+                    let _ = catch_unwind(AssertUnwindSafe(|| cache.clear()));
+                }
+                let mut o = self.finish(line, ret, panicked, log, Some(*c), pre, refused, sorted);
+                if internal {
+                    o.obs_text = "ar=ovf".to_owned();
+                    o.internal = true;
+                }
+                Some(o)
             }
         }
     }
